@@ -1,6 +1,6 @@
 (** C01 — attribution soundness.  Theorems only. *)
 From Coq Require Import List ZArith Bool.
-From TR Require Import Lib.Bytes Wire.Decode Drv.Drivers Spec.C01 Proofs.DrvProofs Eng.Engine Eng.Timed Spec.C03 Proofs.EngCorollaries Proofs.EngComplete Proofs.EngIso.
+From TR Require Import Lib.Bytes Wire.Decode Drv.Drivers Spec.C01 Proofs.DrvProofs Eng.Engine Eng.Timed Spec.C03 Proofs.EngCorollaries Proofs.EngComplete Proofs.EngIso Proofs.SerialComplete.
 Import ListNotations.
 Open Scope Z_scope.
 
@@ -43,3 +43,11 @@ Theorem C01_accepted_replies_come_from_matches : forall p script r,
   forall q, In q (tr_accepted r) -> exists e, In e script /\ e_kind e <> 1 /\ matches e q.
 Proof. exact parallel_accepts_only_script_replies. Qed.
 Print Assumptions C01_accepted_replies_come_from_matches.
+
+(** the same for the serial engine *)
+Theorem C01_serial_accepted_replies_come_from_matches p script r :
+  serial_run p script = TDone r ->
+  forall q, In q (tr_accepted r) -> exists e, In e script /\ e_kind e <> 1 /\ matches e q.
+Proof. exact (@serial_accepts_only_script_replies p script r). Qed.
+Print Assumptions C01_serial_accepted_replies_come_from_matches.
+
